@@ -141,6 +141,57 @@ PIPELINES.append(Pipeline('U2_pbf_read_from_input_queue_with_check', units=[U_en
                           canaries=['canary:normal', 'canary:throw'], replay=('c06_chunks', lambda cex, o: ['pbf']),
                           note='queue mode (m_fd == -1); the file-descriptor branch only hands the size to read_exactly'))
 
+# ---- OPL: line_by_line() - every byte received is part of a line handed to the parser, a line separator, or pending; the loop runs to the end marker ----
+OPLIN = 'include/osmium/io/detail/opl_input_format.hpp'
+OPL_PRELUDE = '''
+#define NPOS ((size_t)-1)
+typedef struct lstr { size_t size; } lstr;   /* std::string: only the length is kept */
+typedef int Worker;
+/* ghost accounting of the byte stream */
+size_t ghost_received;   /* bytes handed over by get_input() so far */
+size_t ghost_parsed;     /* bytes that were part of a line passed to parse_line() */
+size_t ghost_sep;        /* line separators consumed */
+size_t ghost_lines;      /* calls of parse_line() */
+_Bool verif_input_done;
+/* the queue protocol (see vstr_epoch.h): chunks of any length >= 1, then the end marker (length 0, input_done() true from then on) */
+size_t W_get_input(Worker* w) __CPROVER_requires(verif_input_done == 0 || verif_input_done == 1) __CPROVER_assigns(verif_input_done, ghost_received)
+  __CPROVER_ensures((__CPROVER_return_value == 0) == verif_input_done && __CPROVER_return_value <= (1u << 24) && ghost_received == __CPROVER_old(ghost_received) + __CPROVER_return_value && (!__CPROVER_old(verif_input_done) || verif_input_done));
+/* std::string::find_first_of("\\n\\r", from): npos, or the first separator at or after from */
+size_t verif_find_nl(size_t size, size_t from) __CPROVER_requires(1) __CPROVER_assigns() __CPROVER_ensures(__CPROVER_return_value == NPOS || (__CPROVER_return_value >= from && __CPROVER_return_value < size));
+void W_parse_line(Worker* w, size_t len) __CPROVER_requires(len >= 1 && verif_exc == 0) __CPROVER_assigns(ghost_parsed, ghost_lines, verif_exc)
+  __CPROVER_ensures(ghost_parsed == __CPROVER_old(ghost_parsed) + len && ghost_lines == __CPROVER_old(ghost_lines) + 1 && (verif_exc == 0 || verif_exc == EXC_opl_error));
+'''
+U_lbl = Unit(OPLIN, 'line_by_line', params=['Worker* worker_p'],
+             pre=[(r'std::string rest;', 'lstr rest; rest.size = 0;'), (r'worker\.input_done\(\)', 'verif_input_done'),
+                  (r'std::string input\{worker\.get_input\(\)\};', 'lstr input; input.size = W_get_input(worker_p);'), (r'std::string::size_type ppos = 0;', 'size_t ppos = 0;'),
+                  (r'!rest\.empty\(\)', '(rest.size != 0)'), (r'input\.find_first_of\("\\n\\r", ppos\)', 'verif_find_nl(input.size, ppos)', 2), (r'input\.find_first_of\("\\n\\r"\)', 'verif_find_nl(input.size, 0)'), (r'std::string::npos', 'NPOS'),
+                  (r'rest\.append\(input\);', 'rest.size += input.size;'), (r'rest\.append\(input, 0, ppos\);', '__CPROVER_assert(ppos <= input.size, "std::string::append(str, pos, n): pos within str"); rest.size += ppos;'),
+                  (r'worker\.parse_line\(rest\.data\(\)\);', 'W_parse_line(worker_p, rest.size);', 2), (r'rest\.clear\(\);', 'rest.size = 0;'),
+                  (r'\+\+ppos;', '++ppos; ghost_sep += 1; /*ghost: the separator at the old ppos*/'),
+                  (r'for \(auto pos = ', 'for (size_t pos = '),
+                  (r'const char\* data = &input\[ppos\];\s*input\[pos\] = \'\\0\';', '__CPROVER_assert(ppos <= pos && pos < input.size, "index into the input string"); ghost_sep += 1; /*ghost: the separator at pos*/'),
+                  (r"if \(data\[0\] != '\\0'\) \{\s*worker\.parse_line\(data\);", 'if (pos > ppos) { /* a non-empty line (input text has no NUL bytes: assumption) */ W_parse_line(worker_p, pos - ppos);'),
+                  (r'input\.size\(\)', 'input.size'),
+                  (r'rest\.assign\(input, ppos, NPOS\);', '__CPROVER_assert(ppos <= input.size, "std::string::assign(str, pos, n): pos within str (out_of_range otherwise)"); rest.size = input.size - ppos;')])
+ACC = 'ghost_received == ghost_parsed + ghost_sep + rest.size'
+PIPELINES.append(Pipeline('U3_opl_line_by_line', units=[U_lbl], prelude=OPL_PRELUDE, contracts={'line_by_line': [
+    ('pre:start of the stream', 'requires', 'verif_exc == 0 && __CPROVER_is_fresh(worker_p, sizeof(*worker_p)) && ghost_received == 0 && ghost_parsed == 0 && ghost_sep == 0 && ghost_lines == 0 && verif_input_done == 0'),
+    ('post:the splitter stops only at the end marker of the stream or with a parse error', 'ensures', 'verif_exc != 0 || verif_input_done'),
+    ('post:every byte received was part of a line handed to the parser or a line separator - whatever the chunking; nothing is dropped, nothing is parsed twice', 'ensures',
+     'verif_exc != 0 || ghost_received == ghost_parsed + ghost_sep'),
+    ('post:exception class', 'ensures', 'verif_exc == 0 || verif_exc == EXC_opl_error'),
+    ('frame', 'assigns', 'verif_exc, verif_input_done, ghost_received, ghost_parsed, ghost_sep, ghost_lines')]},
+    loops={'line_by_line': [
+        ['__CPROVER_assigns(rest.size, verif_exc, verif_input_done, ghost_received, ghost_parsed, ghost_sep, ghost_lines)',
+         '__CPROVER_loop_invariant(verif_exc == 0 && (verif_input_done == 0 || verif_input_done == 1) && %s)' % ACC],   # the accounting holds modulo 2^64; no bound on the stream length is needed
+        ['__CPROVER_assigns(pos, ppos, verif_exc, ghost_parsed, ghost_sep, ghost_lines)',
+         '__CPROVER_loop_invariant(verif_exc == 0 && rest.size == 0 && ppos <= input.size && (pos == NPOS || (pos >= ppos && pos < input.size)) && ghost_parsed + ghost_sep + (input.size - ppos) == ghost_received)',
+         '__CPROVER_decreases(input.size - ppos)']]},
+    replace=['W_get_input', 'verif_find_nl', 'W_parse_line'], maythrow={'W_parse_line': True}, enforce='line_by_line',
+    harness='void harness(void) { Worker* w; line_by_line(w); __CPROVER_assert(verif_exc != 0, "canary:normal"); __CPROVER_assert(verif_exc == 0, "canary:throw"); }',
+    canaries=['canary:normal', 'canary:throw'], timeout=1200, replay=('c06_chunks', lambda cex, o: ['opl']), noflags=['--conversion-check'], object_bits=10, split=12,
+    note='strings by length, separators by an unconstrained find_first_of: every chunking and every placement of line ends; termination of the outer loop depends on the queue (not claimed)'))
+
 TRUSTED = ['std::string erase/append/data semantics (stubs/vstr_epoch.h)', 'get_input()/input_done() hand over the stream in arbitrary chunks followed by one end marker (queue protocol)']
 ASSUMPTIONS = ['input streams of at most 100000 bytes (object-size bound; the loop contract makes the proof independent of it)']
 NOT_DECIDED = ['XML (carry-over lives inside expat)', 'OPL line splitting', 'the PBF blob header size/type decoding between the queue operations', 'decompressor to parser hand-off (threads)', 'callers that ignore the return value of ensure_bytes_available']
